@@ -2,7 +2,7 @@ package variable
 
 import (
 	"fmt"
-
+	"strings"
 
 	"github.com/pkg/errors"
 	"github.com/ysugimoto/falco/v2/interpreter/context"
@@ -61,6 +61,14 @@ func (v *HashScopeVariables) Get(s context.Scope, name string) (value.Value, err
 		return value.Null, errors.WithStack(err)
 	} else if val != nil {
 		return val, nil
+	}
+	// The client certificate variables are available in vcl_hash as well (they live next to the TCP info variables)
+	if strings.HasPrefix(name, "tls.client.certificate.") {
+		if val, err := GetTCPInfoVariable(v.ctx, name); err != nil {
+			return value.Null, errors.WithStack(err)
+		} else if val != nil {
+			return val, nil
+		}
 	}
 	if val, err := GetFastlyInfoVariable(v.ctx, name); err != nil {
 		return value.Null, errors.WithStack(err)
